@@ -392,6 +392,7 @@ class HostResult:
         self.shadow = []
         self.instances = []
         self.unmodelled_expected = 0
+        self.name_case = None
 
 
 def _exc_chain(e):
@@ -670,6 +671,32 @@ def eval_host(ctx, label, host, families, rng, stream="gen", want_ref=True, chec
                                        f"a removable instance of {i['family']} exists in {i['level']} (root node {i['root']}) but no rule "
                                        f"fired in that graph (fired elsewhere: {count})"))
                 break
+    # -- names of the values the replacements created (repaired variant: OV.Rewrite.Naming.fresh_seq)
+    def value_names(mm, skip_new_functions=False):
+        names = set()
+
+        def gr(g):
+            names.update(i.name for i in g.input)
+            if not skip_new_functions:                   # (initializers are named by the rule that creates them)
+                names.update(i.name for i in g.initializer)
+            for n in g.node:
+                names.update(o for o in n.output if o)
+                for a in n.attribute:
+                    if a.type == a.GRAPH:
+                        gr(a.g)
+        gr(mm.graph)
+        for f in mm.functions:
+            if skip_new_functions and f.domain == G.DOM_FN:
+                continue
+            names.update(f.input)
+            for n in f.node:
+                names.update(o for o in n.output if o)
+                for a in n.attribute:
+                    if a.type == a.GRAPH:
+                        gr(a.g)
+        return names
+    used0 = value_names(model)
+    res.name_case = (sorted(used0), 3 * total_new + 3, sorted(value_names(new, skip_new_functions=True) - used0))
     # -- model correspondence material
     for k, r in enumerate(tracer.sweeps):
         if r["unmodelled"]:
@@ -723,6 +750,8 @@ def reference_instances(host, families):
 # ----------------------------------------------------------------------------- Coq evaluation of the collected cases
 
 FLAGS = ["as_is"]          # the repair flags of OV.Rewrite.State matching the source being checked (set by probe_flags)
+NAME_CASES = []            # (label, (names in use before, bound, names of the values created)) of sampled hosts
+TARGETED_VIOLATED = set()  # traced targeted hosts on which the property oracle reported a (known) violation
 STATE_DIFF = {}            # label -> (code, event index, differing component) of the last coq_replay
 
 
@@ -929,6 +958,8 @@ def stream_generated(ctx, n_hosts):
             ctx.tie_broken("correspondence", s, d)
         all_cases += res.coq_cases
         all_wf += res.wf_terms
+        if res.name_case and h % 4 == 0:
+            NAME_CASES.append((label, res.name_case))
         meta[label] = (rule_set, replay)
         if h < 3 and res.count:
             ctx.sample({"host": label, "rule_set": rule_set, "fired": res.count, "tags": tags[:8],
@@ -1068,11 +1099,25 @@ def stream_targeted(ctx, fixed_cases=None, fixed_wf=None):
     x = (np.arange(9, dtype=np.float32).reshape(3, 3) - 4)
     feeds = [{"x": x, "z": -x}, {"x": -2 * x, "z": x + 1}, {"x": np.zeros((3, 3), np.float32), "z": x}]
 
-    def judge(key, what, m, rules, replay):
-        """valid + equivalent + same signature, else violation `key`."""
+    def judge(key, what, m, rules, replay, trace_label=None):
+        """valid + equivalent + same signature, else violation `key`.  trace_label: the sweeps are also replayed through
+        the Gallina models (node lists and state), whichever variant of the code is under check."""
         ctx.case(("targeted", key))
+        tracer = Tracer() if trace_label else None
         try:
-            new = rewriter.rewrite(copy.deepcopy(m), rules)
+            if tracer:
+                tracer.install(rules)
+            try:
+                new = rewriter.rewrite(copy.deepcopy(m), rules)
+            finally:
+                if tracer:
+                    tracer.uninstall()
+            for k, r in enumerate(tracer.sweeps if tracer else []):
+                for u in r["unmodelled"]:
+                    ctx.tie_broken("correspondence", "apply:unmodelled", f"{trace_label}: {u}")
+                if not r["unmodelled"]:
+                    fixed_cases.append((f"{trace_label}/{r['kind']}{k}", r["apps"], r["g0"], r["gfinal"], r["ext"],
+                                        dict(events=r["events"], s0=r["s0"], sfinal=r["sfinal"], tops=r.get("tops", [0]))))
         except Exception as e:
             ctx.violation(key, re.sub(r"0x[0-9a-f]+", "0x..", f"{what}: rewrite() raised {' | '.join(type(c).__name__ + ': ' + str(c)[:120] for c in _exc_chain(e))}"), replay)
             return None
@@ -1094,6 +1139,8 @@ def stream_targeted(ctx, fixed_cases=None, fixed_wf=None):
                 problems.append(f"rewritten model does not run: {type(e).__name__}: {str(e)[:200]}")
         if problems:
             ctx.violation(key, f"{what}: " + "; ".join(problems), replay)
+            if trace_label:
+                TARGETED_VIOLATED.add(trace_label)       # the property oracle produced the failing input: replay not reported
         return new
 
     # (a) a rule registers an initializer whose name already exists (DESIGN section 5 C07 suspicion)
@@ -1119,7 +1166,8 @@ def stream_targeted(ctx, fixed_cases=None, fixed_wf=None):
             m = mk([helper.make_node("Neg", ["x"], ["a"]), helper.make_node("Neg", ["x"], ["b"]), helper.make_node("Add", ["a", "b"], ["o"])], ["x"], ["o"])
         judge(f"C07:initializer-name-clash:{variant}",
               "a replacement registers an initializer under a name that already exists in the graph", m,
-              [orp.RewriteRule(pat_neg, rep_init, cond)], {"stream": "targeted", "case": "initializer-name-clash", "variant": variant})
+              [orp.RewriteRule(pat_neg, rep_init, cond)], {"stream": "targeted", "case": "initializer-name-clash", "variant": variant},
+              trace_label=f"targeted:initializer-name-clash:{variant}")
 
     # (b) pattern with two output nodes: the replacement is inserted after the first of them
     def pat2(op, x, y):
@@ -1263,6 +1311,107 @@ def stream_targeted(ctx, fixed_cases=None, fixed_wf=None):
     ctx.case(("targeted", "empty-rule-list"))
 
 
+# ---- a replacement that returns an existing value: object-level naming model (OV.Rewrite.Naming.splice_names)
+
+RETURNED_SCENARIOS = [
+    # name, nodes (op, inputs, outputs), graph inputs, graph outputs, rule, matched root output (old), returned value (new)
+    ("input->interior", [("Identity", ["x"], ["t"]), ("Neg", ["t"], ["o"])], ["x"], ["o"], "identity", "t", "x"),
+    ("interior->interior", [("Abs", ["x"], ["u"]), ("Identity", ["u"], ["t"]), ("Neg", ["t"], ["o"])], ["x"], ["o"], "identity", "t", "u"),
+    ("input->output", [("Identity", ["x"], ["o"])], ["x"], ["o"], "identity", "o", "x"),
+    ("interior->output", [("Abs", ["x"], ["u"]), ("Identity", ["u"], ["o"])], ["x"], ["o"], "identity", "o", "u"),
+    ("output->output", [("Abs", ["x"], ["u"]), ("Identity", ["u"], ["o"])], ["x"], ["o", "u"], "identity", "o", "u"),
+    ("negneg:input->output", [("Neg", ["x"], ["a"]), ("Neg", ["a"], ["o"])], ["x"], ["o"], "negneg", "o", "x"),
+    ("negneg:input->interior", [("Neg", ["x"], ["a"]), ("Neg", ["a"], ["t"]), ("Abs", ["t"], ["o"])], ["x"], ["o"], "negneg", "t", "x"),
+    ("negneg:input->used-output", [("Neg", ["x"], ["a"]), ("Neg", ["a"], ["t"]), ("Abs", ["t"], ["o"])], ["x"], ["o", "t"], "negneg", "t", "x"),
+    ("negneg:interior->output", [("Relu", ["x"], ["u"]), ("Neg", ["u"], ["a"]), ("Neg", ["a"], ["o"])], ["x"], ["o"], "negneg", "o", "u"),
+]
+
+
+def stream_returned(ctx):
+    """Rules whose replacement returns a pattern input (Identity(x) -> x, Neg(Neg(x)) -> x) on hosts where the returned value and
+    the pattern output are graph inputs / interior values / graph outputs: names of the graph inputs and outputs afterwards and
+    the number of forwarding Identity nodes, against OV.Rewrite.Naming.splice_names in the variant the source is in."""
+    import onnx
+    from onnx import TensorProto, helper
+    from onnxscript import rewriter
+    from onnxscript.rewriter import pattern as orp
+    import onnxscript.rewriter._rewrite_rule as rr
+    repaired = hasattr(rr, "_has_fixed_name")
+    ctx.cover(source_has_returned_existing_value_repair=repaired)
+    lines, labels = [], []
+    for k, (name, nodes, gins, gouts, rule_kind, old, new) in enumerate(RETURNED_SCENARIOS):
+        ctx.case(("returned-existing-value", name))
+        vi = lambda n: helper.make_tensor_value_info(n, TensorProto.FLOAT, [3])          # noqa: E731
+        m = helper.make_model(helper.make_graph([helper.make_node(op, i, o) for op, i, o in nodes], "g", [vi(n) for n in gins],
+                                                [vi(n) for n in gouts]), opset_imports=[helper.make_opsetid("", 18)], ir_version=10)
+        onnx.checker.check_model(m, full_check=True)
+        calls = {"n": 0}
+
+        def rep(op, x, calls=calls):
+            calls["n"] += 1
+            return x if calls["n"] <= 20 else None
+
+        pat = (lambda op, x: op.Identity(x)) if rule_kind == "identity" else (lambda op, x: op.Neg(op.Neg(x)))
+        try:
+            out = rewriter.rewrite(copy.deepcopy(m), [orp.RewriteRule(pat, rep)])
+        except Exception as e:
+            ctx.violation(f"C07:returned-existing-value:raises:{name}", f"rewrite() raised {type(e).__name__}: {str(e)[:200]}",
+                          {"stream": "returned", "scenario": name, "model": m.SerializeToString().hex()})
+            continue
+        values = list(dict.fromkeys(gins + [o for _op, _i, outs in nodes for o in outs]))
+        obj = {v: i for i, v in enumerate(values)}
+        matched_ident = rule_kind == "identity"
+        before_ident = sum(1 for op, _i, _o in nodes if op == "Identity")
+        after_ident = sum(1 for n in out.graph.node if n.op_type == "Identity")
+        unchanged = [(n.op_type, list(n.input), list(n.output)) for n in out.graph.node] == [(op, i, o) for op, i, o in nodes]
+        forwards = None if unchanged else after_ident - (before_ident - (1 if matched_ident else 0))
+        pinned = [obj[v] for v in dict.fromkeys(gins + gouts)]
+        is_fwd = matched_ident and old in gouts and new in gins + gouts
+        vs = clist([f"({obj[v]}, {common.cstr(v)})" for v in values])
+        nl = lambda l: clist([str(obj[v]) for v in l])                                   # noqa: E731
+        observed = (f"({clist([i.name for i in out.graph.input], common.cstr)}, {clist([o.name for o in out.graph.output], common.cstr)}, "
+                    f"{'None' if forwards is None else '(Some ' + str(forwards) + ')'})")
+        lines.append(f"({k}, obs_eqb (observe {nl(gins)} {vs} {nl(gouts)} (splice_names {'true' if repaired else 'false'} [] {clist([str(x) for x in pinned])} "
+                     f"{'true' if is_fwd else 'false'} [{obj[old]}] [{obj[new]}] {vs} {nl(gouts)} {len(values)})) {observed})")
+        labels.append((name, observed))
+    ok, vals, raw = ctx.coq_eval(["OV.Rewrite.Naming"], "Eval vm_compute in (map fst (filter (fun r => negb (snd r)) " + clist(lines) + ")).")
+    if not ok or not vals:
+        ctx.tie_broken("correspondence", "naming:model-evaluation", raw[-1200:])
+        return
+    bad = common.parse_nat_list(vals[0])
+    for i in bad:
+        ctx.tie_broken("correspondence", "naming:returned-existing-value", f"{labels[i][0]}: observed {labels[i][1]} differs from splice_names")
+    ctx.obligation(f"correspondence naming: on {len(lines)} hosts where a replacement returns an existing value (graph input / interior / "
+                   f"graph output, for an interior / output pattern output) the names of the graph inputs and outputs and the forwarding "
+                   f"nodes are those of Rewrite/Naming.v splice_names ({'repaired' if repaired else 'as read'} variant)", not bad,
+                   "; ".join(labels[i][0] for i in bad))
+
+
+def check_fresh_names(ctx):
+    """Repaired variant only (the rewriter names the values it creates itself, unique over the model): every name that appears in
+    the rewritten model is one of the names OV.Rewrite.Naming.fresh_seq draws against the names in use before."""
+    import onnxscript.rewriter._rewrite_rule as rr
+    repaired = hasattr(rr.RewriteRuleSet, "_name_new_values")
+    ctx.cover(source_has_model_wide_fresh_names_repair=repaired, fresh_name_hosts=len(NAME_CASES) if repaired else 0)
+    if not repaired or not NAME_CASES:
+        return
+    items = []
+    for i, (_label, (used, bound, created)) in enumerate(NAME_CASES):
+        items.append(f"({i}, forallb (fun n => mem n (fresh_seq {clist(used, common.cstr)} {bound})) {clist(created, common.cstr)})")
+    bodies = ["Eval vm_compute in (map fst (filter (fun r => negb (snd r)) " + clist(items[j:j + 40]) + "))." for j in range(0, len(items), 40)]
+    outs = ctx.coq_eval_shards(["OV.Graph.Syntax", "OV.Rewrite.Naming"], bodies, par=8)
+    bad = []
+    for (ok, vals, raw) in outs:
+        if not ok or not vals:
+            ctx.tie_broken("correspondence", "naming:fresh-names-evaluation", raw[-1200:])
+            return
+        bad += [NAME_CASES[i][0] for i in common.parse_nat_list(vals[0])]
+    for label in bad[:5]:
+        ctx.tie_broken("correspondence", "naming:fresh-names", f"{label}: a created value has a name outside fresh_seq")
+    ctx.obligation(f"correspondence naming: on {len(NAME_CASES)} rewritten hosts every new value name is drawn as Rewrite/Naming.v fresh_seq "
+                   "does (rewritten_val_<j>, unused anywhere in the model)", not bad, "; ".join(bad[:5]))
+
+
 def container_case(fam, where, mode, variant, host_seed):
     import random
     rng = random.Random(host_seed)
@@ -1387,13 +1536,17 @@ def run(ctx):
     displaced, owner = probe_flags()
     ctx.cover(source_has_initializer_clash_repair=displaced, source_has_function_subgraph_imports_repair=owner)
 
+    NAME_CASES.clear()
     quick = ctx.tier == "quick"
     n_hosts = len(RULE_SETS) * (8 if quick else 60)
     cases, wf, meta, stats, hist, violated = stream_generated(ctx, n_hosts)
     c2, w2, st2 = stream_small(ctx, 4, 150 if quick else None)
     cases += c2
     wf += w2
+    TARGETED_VIOLATED.clear()
     stream_targeted(ctx, cases, wf)
+    violated |= TARGETED_VIOLATED
+    stream_returned(ctx)
     st3 = stream_containers(ctx, cases, wf, meta)
     ir_diffs = stream_ir_path(ctx, 20 if quick else 120)
 
@@ -1434,6 +1587,7 @@ def run(ctx):
                        "functions table (extracted body = matched nodes in graph order behind the copied constants, least unused overload, "
                        "imports filtered from the parent), node and value metadata_props observed when the sweep ended", not sdiff,
                        "; ".join(f"{k}:{v}" for k, v in list(sdiff.items())[:5]))
+    check_fresh_names(ctx)
     bad_wf, bad_imp = coq_wf(ctx, wf)
     if bad_wf is not None:
         for label in bad_wf:
